@@ -146,6 +146,7 @@ def find_pair_loops(tu, fn):
                         pl.Bbase, pl.B = b
                         pl.outer = _for_header(outer_for)
                         pl.inner = _for_header(node)
+                        pl.outer_node, pl.inner_node = outer_for, node
                         # the pair indices must come from the two loop variables (directly or through an index map)
                         def from_var(idx, var):
                             if idx == var:
